@@ -899,8 +899,9 @@ theorem hist_count_ne_inf_partial (P : Params) (n : Str) (samples : List OSample
       obtain ⟨f1, f2, f3, l2, f4, f5⟩ := histStep_inGroup P n h1 h2 sc g g (by rw [e3]; exact hin) e2 rfl (by rw [e3]; exact hrefl) hs2
       have hcount : h2.count = some c := by
         -- the `_count` branch stores the value
-        obtain ⟨hnb, hts, ⟨l, hgl, hle⟩, _⟩ := hin
-        unfold histStep at hs2
+        obtain ⟨hcl, hnb, hts, ⟨l, hgl, hle⟩, _⟩ := hin
+        rw [histStep_classic P n h1 sc hcl] at hs2
+        unfold histStepBody at hs2
         rw [groupForSample_hist n sc l hgl] at hs2
         dsimp only at hs2
         have hsuf : sc.name.drop n.length = sCount ∨ sc.name.drop n.length = sGcount := by
